@@ -209,7 +209,7 @@ pub fn run_check(eng: &Engine) {
     eng.set_rule("the real ruzstd-cli binary in a private directory: file contents from the data generator (0 B .. 1 MiB quick / 8 MiB thorough; names with dots, spaces, no extension) x level option {absent, -l 0, -l 1, -l 2..4 (unimplemented), -l 9, -l 255} x explicit / defaulted output paths x scenarios {round trip, missing input, output directory missing, garbage archive, truncated archive}; oracle: implemented levels and no level given: exit 0, archive decodes with libzstd to the original, decompress exit 0, restored file identical; operations that cannot be carried out: non-zero exit status and not (panic AND an output file left behind); never exit 0 with a wrong or partial file; non-trivial = non-empty content and (no level given or content > 128 KiB); distinct by (content, options) hash");
     eng.assume("the sandbox runs as root, so permission bits cannot be used to make operations fail; a missing directory is used instead");
     let tier = eng.tier;
-    let n = eng.tier.pick(300, 6_000);
+    let n = eng.tier.pick(1_000, 12_000);
     eng.run_stage("cli_runs", n, || case_strategy(tier), check);
     let _ = std::fs::remove_dir_all(PathBuf::from(VERIF_ROOT).join("target/c19"));
 }
